@@ -296,3 +296,64 @@ Proof.
   unfold sc_prepare_dags, sc_write_dags. destruct (snd (dag_loads ds)) eqn:E; [|discriminate].
   apply sc_dump_eq_write.
 Qed.
+
+(* ---- destinations that fail, and histories --------------------------------------------------------- *)
+(* what a failing destination accepted is a prefix of what a sound one receives *)
+Lemma fault_write_prefix short : forall chunks k,
+  exists rest, concat chunks = fst (fault_write k short chunks) ++ rest.
+Proof.
+  induction chunks as [|c t IH]; intros k; cbn [fault_write concat]; [exists []; reflexivity|].
+  destruct (k =? 0).
+  - destruct short; cbn [fst].
+    + exists (drop (blen c / 2) c ++ concat t). rewrite app_assoc, take_drop_id. reflexivity.
+    + exists (c ++ concat t). reflexivity.
+  - cbn [fst]. destruct (IH (N.pred k)) as (rest & Hr). exists rest. rewrite Hr, app_assoc. reflexivity.
+Qed.
+
+(* a fault index beyond the last Write call is no fault *)
+Lemma fault_write_none short : forall chunks k, N.of_nat (length chunks) <= k ->
+  fault_write k short chunks = (concat chunks, false).
+Proof.
+  induction chunks as [|c t IH]; intros k Hk; cbn [fault_write concat]; [reflexivity|].
+  cbn [length] in Hk. replace (k =? 0) with false by lia. rewrite IH by lia. reflexivity.
+Qed.
+
+Lemma concat_sec_chunks bs : concat (flat_map sec_chunks bs) = enc_sections bs.
+Proof.
+  induction bs as [|b t IH]; [reflexivity|]. cbn [flat_map]. rewrite concat_app, IH.
+  rewrite enc_sections_cons. unfold sec_chunks, enc_section. cbn [concat]. rewrite app_nil_r, <- !app_assoc. reflexivity.
+Qed.
+
+(* WriteCar into a failing destination: a prefix of the fault-free output, and an error iff the fault
+   was reached or the walk failed *)
+Theorem write_car_faulty_prefix fk short roots vs ok :
+  exists rest, fst (write_car roots vs ok) = fst (write_car_faulty fk short roots vs ok) ++ rest.
+Proof.
+  rewrite write_car_spec. unfold write_car_faulty. cbn [fst].
+  destruct (fault_write_prefix short (hdr_chunks (enc_header roots 1) ++ flat_map sec_chunks (first_occ vs)) fk) as (rest & Hr).
+  exists rest. rewrite <- Hr. rewrite concat_app, concat_sec_chunks. unfold hdr_chunks, ld. cbn [concat].
+  rewrite app_nil_r. reflexivity.
+Qed.
+
+(* THE HISTORY STATEMENT: whatever the first write was (any Dags, any fault position, error or short
+   write) the following fault-free Write / Prepare answer exactly what they answer stand-alone --
+   the model of util.LdWrite carries nothing from one call to the next *)
+Theorem sc_history_independent fk short ds1 k ds2 :
+  snd (fst (sc_history fk short ds1 k ds2)) = sc_write_dags k ds2
+  /\ snd (sc_history fk short ds1 k ds2) = sc_prepare_dags ds2.
+Proof. split; reflexivity. Qed.
+
+Theorem wc_history_independent fk short r1 vs1 ok1 r2 vs2 ok2 :
+  snd (wc_history fk short r1 vs1 ok1 r2 vs2 ok2) = write_car r2 vs2 ok2.
+Proof. reflexivity. Qed.
+
+(* ... so after ANY first write the second one has the exact-once bytes and the announced size *)
+Theorem sc_history_second_exact fk short ds1 k ds2 :
+  Forall (fun d => t_ok (snd d) = true) ds2 ->
+  let bs := first_occ (concat (map (fun d => blocks_of (t_loads (snd d))) ds2)) in
+  fst (fst (snd (fst (sc_history fk short ds1 k ds2)))) = enc_payload (map fst ds2) bs
+  /\ snd (sc_history fk short ds1 k ds2) = Some (blen (enc_payload (map fst ds2) bs), map fst ds2, map fst bs).
+Proof.
+  intros H bs. destruct (sc_history_independent fk short ds1 k ds2) as [H1 H2]. rewrite H1, H2.
+  split; [apply sc_write_dags_all_ok; exact H|apply sc_prepare_dags_all_ok; exact H].
+Qed.
